@@ -230,6 +230,9 @@ def gen_case(rng, n_ops, faults=False, crashes=False):
             att = {}
     if me_on and rng.chance(1, 2):
         out.extend(settle(users, ntop))
+    out = with_sys(rng.fork("sys"), out, faults)
+    if me_on:
+        out = with_me_tags(rng.fork("metags"), out, faults)
     out = with_deluser(rng.fork("deluser"), out, faults)
     if any(o.startswith("sess S8 ") for o in out):
         # after a restart the sessions stand for new connections, logged in again - which an account that is gone cannot do: its
@@ -254,6 +257,53 @@ def pick_deluser(r2):
     if k < 9:
         return f"deluser {r2.choice(['S1', 'S2', 'S6'])} user={r2.choice(['U1', 'U2', 'U3'])}{hard}"
     return f"deluser S7 user=X{hard}"
+
+
+def with_sys(r2, out, faults):
+    """in one history out of three the system topic `sys` takes part: anybody who is logged in publishes to it without attaching, only the
+    root session subscribes (and reads, leaves, changes its own mode, bans itself and comes back); choices from a generator of their own"""
+    if not r2.chance(1, 3):
+        return out
+    first = next((i for i, o in enumerate(out) if o.split(" ")[0] not in ("reset", "user", "sess")), len(out))
+    n = 0
+    for _ in range(2 + r2.below(7)):
+        pos = first + r2.below(max(1, len(out) - first + 1))
+        while pos > 0 and pos < len(out) and out[pos - 1].split(" ")[0] in ("fail", "crash"):
+            pos += 1
+        anyone = r2.choice(["S1", "S2", "S3", "S4", "S5", "S6", "S7"])
+        n += 1
+        o = r2.choice([f"sub S7 sys", f"sub S7 sys", f"sub S7 sys mode={r2.choice(['JRWPD', 'JR', 'N', 'JRWPSO', 'JP', 'X'])}", f"sub {anyone} sys",
+                       f"pub {anyone} sys Y{n}", f"pub {anyone} sys Y{n}", f"pub {anyone} sys Y{n}" + r2.choice(["", " noecho=1", " head=sender:U1", " head=mime:text"]),
+                       f"leave S7 sys", f"leave S7 sys unsub=1", f"get S7 sys {r2.choice(['desc', 'data', 'sub', 'del', 'data'])}",
+                       f"get {anyone} sys {r2.choice(['desc', 'sub', 'data'])}", f"setsub S7 sys mode={r2.choice(['JRWPD', 'N', 'JR', 'JRWPO', 'W'])}", f"setsub S7 sys",
+                       f"note S7 sys {r2.choice(['read', 'recv'])} {r2.below(4)}", f"delmsg S7 sys {r2.below(3)}:{r2.below(5)}" + r2.choice(["", " hard=1"]),
+                       f"pub S7 sys Z{n} as={r2.choice(['U1', 'U2'])}"])
+        ins = [o]
+        if faults and o.split(" ")[0] in ("sub", "pub", "setsub", "leave", "delmsg") and r2.chance(1, 5):
+            ins.insert(0, f"fail {1 + r2.below(3)}")
+        out = out[:pos] + ins + out[pos:]
+    return out
+
+
+def with_me_tags(r2, out, faults):
+    """in half of the histories with `me` topics the accounts' own tags are read and changed here and there ({set tags} on `me`: what the
+    search finds an account by; tags in the `basic` namespace can neither come nor go); choices from a generator of their own"""
+    if not r2.chance(1, 2):
+        return out
+    first = next((i for i, o in enumerate(out) if o.split(" ")[0] not in ("reset", "user", "sess")), len(out))
+    for _ in range(1 + r2.below(4)):
+        pos = first + r2.below(max(1, len(out) - first + 1))
+        while pos > 0 and pos < len(out) and out[pos - 1].split(" ")[0] in ("fail", "crash"):
+            pos += 1
+        s_ = r2.choice(["S1", "S2", "S3", "S4", "S5", "S6"])
+        o = r2.choice([f"get {s_} me tags", f"settags {s_} me tags={pick_tags(r2)}", f"settags {s_} me tags={pick_tags(r2)}",
+                       f"settags {s_} me tags=" + ",".join(sorted(set(r2.choice(UTAGS) for _ in range(1 + r2.below(3))))),
+                       f"settags {s_} me tags="])
+        ins = [o]
+        if faults and o.startswith("settags") and r2.chance(1, 5):
+            ins.insert(0, "fail 1")
+        out = out[:pos] + ins + out[pos:]
+    return out
 
 
 def with_deluser(r2, out, faults):
@@ -846,8 +896,8 @@ WORLD_TRUSTED = [
 ]
 WORLD_ASSUMPTIONS = [
     "group, channel-enabled and peer-to-peer topics and the users' `me` topics ({sub}, {leave}, {pub}, {get desc}, {get sub} - the list of contacts "
-    "with their online flags -, {set sub} - the user's own mode: without P the user is invisible -, idle unload, and everything the other topics and users tell a user there; not the other requests a `me` topic "
-    "serves: credentials, tags, {set desc}, {del}, user-agent changes) and `fnd` topics ({sub}, {leave}, {set desc} - the query of the session, the stored query -, "
+    "with their online flags -, {set sub} - the user's own mode: without P the user is invisible -, {set tags} / {get tags} - the account's tags -, idle unload, and everything the other topics and users tell a user there; not the other requests a `me` topic "
+    "serves: credentials, {set desc}, {del}, user-agent changes) and `fnd` topics ({sub}, {leave}, {set desc} - the query of the session, the stored query -, "
     "{get sub} - the search -, {get desc}, {set sub}, {pub}; no sys), one server node, requests processed one at a time in arrival order, the hub's queue of "
     "notifications between topics drained after every request; on-behalf-of (root `as=`) requests are exercised on plain group "
     "topics only; on a channel-enabled topic two users come as readers (`chn` spelling) and two as subscribers, one request in twenty "
